@@ -151,6 +151,9 @@ ExitOf(failed) == IF failed THEN 1 ELSE 0
 (* Inv_FoldAgrees); `arr` is the order in which the reports reach           *)
 (* Summary.Report (scan results, then verifyOwners).                        *)
 NoOut == [written |-> FALSE, json |-> <<>>, shown |-> <<>>]
+\* verifyOwners: a rule without an owner comment is "missing owner"; an owner that matches none of owners{allowed}
+\* would be "invalid owner" (every rule that has an owner here is owned by "bob", and owners { allowed = ["bob"] })
+OwnerProblems(c) == [k \in 1..Cardinality({x \in 1..Len(c.reports) : c.reports[x].kind = "owner"}) |-> "missing owner"]
 LintRun(c, arr) ==
   LET minP  == ParseSeverity(FlagValue(c.minSev, "warning"))
       failP == ParseSeverity(FlagValue(c.failOn, "bug")) IN
@@ -160,7 +163,9 @@ LintRun(c, arr) ==
            by == CountBySeverity(s)
            n  == LintFailProblems(by, failP.sev) IN
        [exit |-> ExitOf(n > 0), why |-> IF n > 0 THEN "found problems" ELSE "ok",
-        written |-> TRUE, json |-> JsonOut(s), shown |-> ConsoleShown(s, minP.sev, c.showDup)]
+        written |-> TRUE, json |-> JsonOut(s), shown |-> ConsoleShown(s, minP.sev, c.showDup),
+        \* "N problem(s) not visible because of --min-severity=X flag" (0: no such message)
+        hidden |-> LintHidden(by, minP.sev)]
 CIRun(c, arr) ==
   LET failP == ParseSeverity(FlagValue(c.failOn, "bug")) IN
   IF failP.err THEN [exit |-> 1, why |-> "invalid --fail-on"] @@ NoOut
